@@ -205,6 +205,7 @@ package ctfe
 //@ fresh result0
 //@ at rpc assert [request-forwarded] rpc.in == req
 //@ at fix assert [fixes-returned-leaf] fix.leaf == after(rpc, rpc.res0.Leaf)
+//@ at ths assert [maps-backend-error] ths.err == rpc.res1
 
 //@ func marshalGetEntriesResponse
 //@ props C07 C08
@@ -601,6 +602,7 @@ package ctfe
 //@ ensures [bad-submission-400-no-backend-no-sct] pb.res1 != nil || (va.called && va.res1 != nil) || (ml.called && ml.res1 != nil) ==> result0 == 400 && result1 != nil && !q.called && !iss.called
 //@ ensures [leaf-build-failure-500-no-backend] bl.called && bl.res1 != nil ==> result0 == 500 && result1 != nil && !q.called && !iss.called
 //@ ensures [backend-error-mapped-no-sct] q.called && q.res1 != nil ==> result0 == ths.res && result1 != nil && !iss.called
+//@ at ths assert [the-backends-own-error-is-what-gets-classified] ths.err == q.res1
 //@ ensures [backend-error-never-200] li.instanceOpts.ErrorMapper == nil && q.called && q.res1 != nil ==> result0 != 200
 //@ ensures [sct-only-after-backend-accepted-and-echo-decoded] iss.called ==> q.called && q.res1 == nil && um.called && um.res1 == nil && len(um.res0) == 0 && bs.called && bs.res1 == nil && ms.called && ms.res1 == nil
 //@ ensures [200-means-sct-issued-and-written] li.instanceOpts.ErrorMapper == nil && result0 == 200 ==> result1 == nil && iss.called && wr.called && wr.res == nil
@@ -766,6 +768,7 @@ package ctfe
 //@ ensures [200-means-sth-written] li.instanceOpts.ErrorMapper == nil && result0 == 200 ==> result1 == nil && g.res1 == nil && ws.called && ws.res == nil
 //@ ensures [non200-error] result0 != 200 ==> result1 != nil
 //@ at ws assert [writes-the-getter-sth] ws.sth == g.res0
+//@ at ths assert [maps-the-getters-error] ths.err == g.res1
 
 // ---- C15: configuration validation ------------------------------------------------------------
 
